@@ -173,3 +173,112 @@ pub fn single_pole_iir(l: usize, cap: usize, sched: &[(usize, usize)], br: usize
     std::mem::forget(input);
     finish(a, b);
 }
+
+/// FirFilter<W16>: chunking independence + definition (shared with C11).
+pub fn fir(ntaps: usize, deci: usize, l: usize, cap: usize, sched: &[(usize, usize)], br: usize) {
+    crate::c11::fir_block(ntaps, deci, l, cap, sched, br);
+}
+
+/// AuDecode: a well-formed 28-byte header (bitrate symbolic) followed by `nd` symbolic data
+/// bytes, delivered in the scheduled pieces vs. at once.
+pub fn au_decode(nd: usize, cap_in: usize, cap_out: usize, sched: &[(usize, usize)], br: usize) {
+    let rate: u32 = any();
+    let mut input: Vec<u8> = Vec::with_capacity(48);
+    for b in [0x2eu8, 0x73, 0x6e, 0x64, 0, 0, 0, 28, 0xff, 0xff, 0xff, 0xff, 0, 0, 0, 3] {
+        input.push(b);
+    }
+    input.push((rate >> 24) as u8);
+    input.push((rate >> 16) as u8);
+    input.push((rate >> 8) as u8);
+    input.push(rate as u8);
+    for b in [0u8, 0, 0, 1, 0, 0, 0, 0] {
+        input.push(b);
+    }
+    for _ in 0..nd {
+        input.push(any::<u8>());
+    }
+    let mk = |src: ReadStream<u8>| rustradio::au::AuDecode::new(src, rate);
+    // instance A
+    let mut a = Rig11::new(input.len(), 32, &mk);
+    a.flush(&input, &[], 8);
+    // instance B
+    let mut b = Rig11::new(cap_in, cap_out, &mk);
+    for (f, d) in sched {
+        let v = b.step(&input, &[], *f, *d);
+        assert!(v != Verdict::Err, "work() returned an error on a well-formed stream");
+        assert!(b.out.data.len() <= a.out.data.len(), "scheduled run produced more output than the one-shot run");
+        for i in 0..b.out.data.len() {
+            assert!(b.out.data[i].bits_eq(&a.out.data[i]), "scheduled output is not a prefix of the one-shot output");
+        }
+    }
+    b.flush(&input, &[], br);
+    assert!(a.next == input.len() && b.next == input.len(), "BOUND: not all input was taken");
+    assert!(b.out.data.len() == a.out.data.len(), "output length depends on chunking");
+    for i in 0..a.out.data.len() {
+        assert!(b.out.data[i].bits_eq(&a.out.data[i]), "output sample depends on chunking");
+    }
+    witness!("schedule executed and outputs compared");
+    std::mem::forget((a, b, input));
+}
+
+/// AuEncode: header + PCM16 big-endian, chunked vs one-shot.
+pub fn au_encode(l: usize, cap: usize, sched: &[(usize, usize)], br: usize) {
+    let input = sym_vec::<f32>(l);
+    let rate: u32 = any();
+    let mk = |src: ReadStream<f32>| rustradio::au::AuEncode::new(src, rustradio::au::Encoding::Pcm16, rate, 1);
+    let mut a = Rig11::new(l.max(1), 28 + 2 * l + 2, &mk);
+    a.out.data = Vec::with_capacity(48);
+    // drive A
+    let mut idle = false;
+    for _ in 0..5 {
+        let a0 = activity();
+        let f = feed(&a.tx, &input, &mut a.next, usize::MAX, &[]);
+        let _ = work_once(&mut a.b);
+        idle = f == 0 && activity() == a0;
+    }
+    assert!(idle, "BOUND: AuEncode A not quiescent");
+    let (ra, _t) = match a.rx.read_buf() {
+        Ok(x) => x,
+        Err(e) => {
+            std::mem::forget(e);
+            panic!("read_buf");
+        }
+    };
+    let na = ra.len();
+    assert!(na == 28 + 2 * l, "AuEncode output length is not header + 2 bytes per sample");
+    // instance B, small stream: compare byte by byte while draining
+    let mut b = Rig11::new(cap, cap, &mk);
+    let mut pos = 0usize;
+    let mut rounds = 0;
+    let total_rounds = sched.len() + br;
+    while rounds < total_rounds {
+        let (f, d) = if rounds < sched.len() { sched[rounds] } else { (usize::MAX, usize::MAX) };
+        feed(&b.tx, &input, &mut b.next, f, &[]);
+        // drain up to d bytes, comparing with A
+        let (rb, tb) = match b.rx.read_buf() {
+            Ok(x) => x,
+            Err(e) => {
+                std::mem::forget(e);
+                panic!("read_buf");
+            }
+        };
+        std::mem::forget(tb);
+        let mut n = rb.len();
+        if n > d {
+            n = d;
+        }
+        for i in 0..n {
+            assert!(pos + i < na, "scheduled run produced more output than the one-shot run");
+            assert!(rb.slice()[i] == ra.slice()[pos + i], "output byte depends on chunking");
+        }
+        rb.consume(n);
+        pos += n;
+        let v = work_once(&mut b.b);
+        assert!(v != Verdict::Err);
+        rounds += 1;
+    }
+    assert!(pos + buffered_r(&b.rx) == na || b.next < l, "output length depends on chunking");
+    assert!(b.next == l && pos == na, "BOUND: AuEncode B did not finish within the flush rounds");
+    witness!("schedule executed and outputs compared");
+    std::mem::forget((a, b, input, ra, _t));
+}
